@@ -55,7 +55,10 @@ CHECKS = {
             "decode_rx_frame never raises, preserves the invariant and equals the step specification; the "
             "ghost-accumulator lemma shows every report is a single-frame payload or the announced-length prefix of "
             "first frame + in-sequence consecutive frames, after which the cell is idle; the first-frame lemma holds "
-            "from any cell state (recovery). The history quantifier is discharged by invariant.",
+            "from any cell state (recovery). The history quantifier is discharged by invariant. The snoop tool: the "
+            "verbose decoder class it instantiates obeys the same per-frame specification, uds.is_response_pending is "
+            "total and exact on any payload, handle_telegram never raises over a layer obeying the decode interface "
+            "contract.",
             "total contract (precondition true) with exceptional postcondition 'raises nothing' + ghost-state lemma; z3"),
     "C17": ("contracts of odxraise/odxassert/odxrequire with the flag symbolic and read at call time; a reads-frame "
             "obligation per module of odxtools/** (the flag is never copied at import time); string decoding obeys the "
@@ -98,7 +101,10 @@ CHECKS.update({
             "real layer/service objects whose coding objects are ghosts (constant prefix from an alphabet with empty, "
             "shared and nested prefixes; abstract decoding outcome); obligation: the reported set = exactly the "
             "services with a matching coding object or applicable global negative response, DecodeError iff none. One "
-            "open finding (services without constant prefix are never found) is listed in known_findings.json.",
+            "open finding (services without constant prefix are never found) is listed in known_findings.json. "
+            "The constant prefix computed by the real composite_codec_get_coded_const_prefix is a prefix of every PDU of "
+            "six real descriptions (also for partially known requests and after earlier questions on the same object); "
+            "ServiceBinner files a service under the first byte of its request (coded constants symbolic).",
             "pre/postcondition of DiagLayer.decode / DiagService.decode_message against a declarative attribution "
             "specification, children by interface contract; message symbolic; z3"),
     "C09": ("the real _compute_available_objects (recursive) and priority sort run on real HierarchyElement/DiagLayer "
@@ -126,7 +132,8 @@ CHECKS.update({
     "C18": ("Comparison.compare_diagnostic_layers / compare_services / compare_parameters: identity reports nothing and "
             "a single add / delete / rename / parameter change is reported as exactly that for exactly that service; "
             "compare_parameters lists exactly the differing attributes (including changes of the linked DOP object); "
-            "print_dl_metrics reports the actual counts (rich table as ghost rows).",
+            "print_dl_metrics reports the actual counts (rich table as ghost rows), also for a layer that went through "
+            "the real inheritance; services told apart by a PHYS-CONST of real requests keep their identity.",
             "postconditions of the comparison functions for single edits; z3 / concrete evaluation through the interpreter"),
 })
 
@@ -139,7 +146,7 @@ E2E = (" Above the leaf: (a) composite level - the real BasicStructure/Request/R
        "run through the real Request/Response.encode and decode with values and message bytes symbolic; these are "
        "labelled B (42 concrete descriptions, field/byte-field lengths bounded; values symbolic) and are reported as "
        "bounded checks, never counted as proved; for 19 descriptions the PDU is compared with an independently "
-       "written wire image, and decoded values must be backed by the bytes of the message.")
+       "written wire image (17 descriptions), and decoded values must be backed by the bytes of the message.")
 for k in ("C01","C02","C03","C04","C05","C08"):
     CHECKS[k] = (CHECKS[k][0] + E2E, CHECKS[k][1] + "; Codec interface contract for composites; end-to-end harnesses over real descriptions")
 CHECKS["C17"] = (CHECKS["C17"][0] + " Restoration: whatever passes in strict mode gives the same result in lenient mode "
